@@ -92,6 +92,12 @@ func Run(r *core.Run, prefix string, scenarios []Scenario, bound int) {
 				if i == j && !sc.Self || sc.Unordered && j < i || sc.Skip != nil && sc.Skip(qa.Name, qb.Name) {
 					continue
 				}
+				if !r.Quick() && r.Expired() {
+					// thorough tier: the run's budget is used up: the remaining pairs are not explored and the run is reported as
+					// capped (the quick tier's schedule parts are sized to finish and always run to the end)
+					r.Cap(fmt.Sprintf("%s part: budget reached before scenario %s, pair %s|%s", prefix, sc.Name, qa.Name, qb.Name))
+					return
+				}
 				qa, qb := qa, qb
 				var got [2]string
 				var res verifrt.Result
